@@ -9,7 +9,7 @@ store, fetch, remove, nl_clear, add_trigger still has the shape Model.lean was w
 against (a list of regular expressions that must match in order).  Exit 2 + message when the
 source no longer has that shape: the check reports a broken tie.
 
-usage: c07.py <repo> <lean dir>
+usage: c07.py <repo> <lean dir> [--cache-only]   (--cache-only: C08's run; tolerate changes in cache_interface.cpp)
 """
 import sys, re, os
 sys.path.insert(0, os.path.dirname(os.path.abspath(__file__)))
@@ -114,7 +114,7 @@ def iface(repo, w):
     expect_in_order("cache_interface::rise", body, [r"^if\(nocache\(\)\)return;cache_module_->rise\(t\);$"])
 
 
-def main(repo, lean):
+def main(repo, lean, cache_only=False):
     src = strip_hooks(strip_c_comments(open(os.path.join(repo, "src/cache_storage.cpp")).read()))
     o = []
     w = o.append
@@ -264,16 +264,29 @@ def main(repo, lean):
     # constructor: counters start at zero
     if not re.search(r"mem_cache\(unsigned pages=0\)\s*:\s*lru_mutex\(new mutex_type\(\)\),\s*access_lock\(new shared_mutex_type\(\)\),\s*limit\(pages\),\s*size\(0\),\s*refs\(0\),\s*generation\(0\)\s*\{\s*nl_clear\(\);", src):
         raise Untranslatable("mem_cache constructor")
-    iface(repo, w)
-    w("\nend Cppcms.C07.Gen")
     path = os.path.join(lean, "Cppcms", "C07", "Gen.lean")
+    if cache_only:
+        # C08 uses the mem_cache part only: a change in src/cache_interface.cpp is C07's business; keep the interface
+        # constants of the existing Gen.lean so that the file stays complete
+        tmp = []
+        try:
+            iface(repo, tmp.append)
+            o.extend(tmp)
+        except Untranslatable:
+            old = open(path).read() if os.path.exists(path) else ""
+            for name, dflt in (("ifaceInfty : Int", "0"), ("pagePrefixGzip : List UInt8", "[]"), ("pagePrefixPlain : List UInt8", "[]")):
+                m = re.search(r"^def " + re.escape(name) + r" := .*$", old, re.M)
+                w(m.group(0) if m else f"def {name} := {dflt}")
+    else:
+        iface(repo, w)
+    w("\nend Cppcms.C07.Gen")
     write_if_changed(path, "\n".join(o) + "\n")
     print(path)
 
 
 if __name__ == "__main__":
     try:
-        main(sys.argv[1], sys.argv[2])
+        main(sys.argv[1], sys.argv[2], cache_only=("--cache-only" in sys.argv[3:]))
     except Untranslatable as e:
         print("c07 translator: source no longer has the expected shape:", e)
         sys.exit(2)
